@@ -9,6 +9,7 @@ From Qryn Require Import model.Ingest model.PushHandler model.IngestSpec model.I
   model.IngestConfirmSched proofs.IngestConfirmInv proofs.IngestConfirmLive model.PushRead proofs.PushReadProofs
   model.IngestConfirmFair proofs.IngestConfirmFairProofs model.IngestBridge proofs.IngestBridgeProofs.
 From Qryn Require model.SeriesIndex proofs.PushReadIndex.
+From Qryn Require model.PromiseHB proofs.PromiseHBProofs.
 Import ListNotations.
 
 (* For every configuration (workers of any kind / round-robin group / maxQueueSize, retry count), every
@@ -439,3 +440,42 @@ Theorem parsed_pushes_are_acknowledged_soundly : forall cfg n tr g es,
   run_mon (amon_step true) (amon_init (length cfg)) es <> None.
 Proof. exact (parsed_pushes_ack _ _ _ _ _ _ bridge_model_ok). Qed.
 Print Assumptions parsed_pushes_are_acknowledged_soundly.
+
+(* The promise at the grain of its synchronisation operations (round 5, after the seeded change C01-e).  The theorems above take
+   the completion of a promise as ONE step.  In writer/utils/promise/promise.go Done is a CompareAndSwap on `pending`, the store of
+   res, the store of err and close(lock); Get is a receive on lock and two reads; GetCtx a select between ctx.Done() and lock.
+   model/PromiseHB.v: programs of such micro-operations (regenerated from promise.go on every run and compared with done_model /
+   get_model / getctx_model), a small-step semantics of any number of threads on one promise, and the syntactic happens-before
+   check hb_ok (Done = the winning CAS, then stores of plain fields, then the close; a getter reads fields only after a receive on
+   the channel -- an atomic load of `pending` orders nothing, the stores come AFTER the CAS).  For EVERY Done program and EVERY
+   list of getter programs passing hb_ok, every number nd of concurrent Done calls and every interleaving (threads that cannot
+   move are skipped; `alt` lets a context be cancelled at any time): there is ONE value w -- the arguments of one Done call --
+   such that every getter that returned field values returned w in every position, after the close, with pending = 0.  No getter
+   sees the zero values (0, nil) = "success, 0 rows", no getter sees a mixture of two Done calls, no two getters disagree. *)
+Theorem promise_completion_is_atomic : forall done getters nd sched s' ts',
+  PromiseHB.hb_ok done getters = true ->
+  PromiseHB.sys_run PromiseHB.pinit (repeat (PromiseHB.writer done) nd ++ map PromiseHB.reader getters) sched = (s', ts') ->
+  exists w, forall t o, In t ts' -> PromiseHB.t_out t = Some o ->
+    o = [] \/ (PromiseHB.closed s' = true /\ w <> O /\ PromiseHB.pend s' = 0%Z /\ Forall (eq w) o).
+Proof. exact PromiseHBProofs.promise_completion_is_atomic. Qed.
+Print Assumptions promise_completion_is_atomic.
+
+(* The programs of the unchanged promise.go pass the check (so the theorem is about them); the fast path of seeded C01-e
+   (`if atomic.LoadInt32(&p.pending) == 0 { return p.res, p.err }` in front of the receive) does not. *)
+Theorem unchanged_promise_passes_and_the_fast_path_does_not :
+  PromiseHB.hb_ok PromiseHB.done_model [PromiseHB.get_model; PromiseHB.getctx_model] = true
+  /\ PromiseHB.hb_ok PromiseHB.done_model [PromiseHB.get_fast; PromiseHB.getctx_model] = false
+  /\ PromiseHB.hb_ok PromiseHB.done_model [PromiseHB.get_model; PromiseHB.getctx_fast] = false.
+Proof.
+  exact (conj PromiseHBProofs.unchanged_promise_passes
+              (conj (proj1 PromiseHBProofs.fast_path_is_rejected) (proj1 (proj2 PromiseHBProofs.fast_path_is_rejected)))).
+Qed.
+Print Assumptions unchanged_promise_passes_and_the_fast_path_does_not.
+
+(* ... and the check is right to reject it: one Done call and one Get with the fast path; after Done's CAS the Get returns the zero
+   values (0, nil) while the channel is still open -- success for the INSERT whose failure Done is about to store. *)
+Theorem fast_path_refuted : exists sched s' ts',
+  PromiseHB.sys_run PromiseHB.pinit (repeat (PromiseHB.writer PromiseHB.done_model) 1 ++ map PromiseHB.reader [PromiseHB.get_fast]) sched = (s', ts') /\
+  PromiseHB.pend s' = 0%Z /\ PromiseHB.closed s' = false /\ PromiseHB.outs ts' = [[0; 0]]%nat.
+Proof. exact PromiseHBProofs.fast_path_refuted. Qed.
+Print Assumptions fast_path_refuted.
